@@ -3,11 +3,10 @@
     einteger<BlockType>  include/universal/number/einteger/einteger_impl.hpp
     edecimal             include/universal/number/edecimal/edecimal_impl.hpp
     erational            include/universal/number/erational/erational_impl.hpp
-  The model follows the code AS IT IS at the pinned commit, including the places where it is wrong
-  (einteger `-=` with a negative left operand, sign-blind comparisons, `>>=` block move,
-  reduce(): missing signs, 64-bit borrow arithmetic, hard-coded 32 in add-back and de-normalisation,
-  edecimal `%` negative zero). Repaired upstream and followed here: einteger `*=` row carry (bebe70a),
-  erational negative zero (535b52e).  Core Lean only.
+  The model follows the code as it stands after the elastic repair commits (einteger: `*=` row carry, `-=` with a
+  negative left operand, signed `==`/`<`, signs of quotient and remainder, `>>=` limb move, `<<=` leading zero limb, Knuth-D
+  borrow/carry/shift arithmetic;
+  edecimal: no negative or padded zero from `%`, unary minus, `<<=`; erational: unsigned zero).  Core Lean only.
   Every function is structurally recursive (lists / explicit fuel) so that the kernel can evaluate
   concrete witnesses by `decide`.
 -/
@@ -99,7 +98,7 @@ def subLoop (w : Nat) : List Nat → List Nat → Nat → List Nat
     if y + c ≤ x then (x - y - c) :: subLoop w xs ys.tail 0
     else (x + 2 ^ w - y - c) :: subLoop w xs ys.tail 1
 
-/-- `operator-=` after the `rhs.sign()` test: ignores the sign of `*this` (defect D16). -/
+/-- the borrow loops of `operator-=` (both operands non-negative when reached). -/
 def subCore (w : Nat) (x r : EI) : EI :=
   if x.limbs.length = 0 then { sign := !r.sign, limbs := r.limbs }
   else
@@ -114,9 +113,14 @@ def add (w : Nat) (x r : EI) : EI :=
     else subCore w x (absE r)                -- *this -= (-rhs)
   else addCore w x r
 
-/-- `operator-=`. -/
+/-- `operator-=`: negative rhs → `+=`; negative `*this` (with a non-negative rhs) → `-(|*this| + rhs)`;
+    otherwise the borrow loops. -/
 def sub (w : Nat) (x r : EI) : EI :=
-  if r.sign then add w x (absE r) else subCore w x r
+  if r.sign then add w x (absE r)
+  else if x.sign then
+    let s := add w (absE x) r
+    { s with sign := !isZero s }
+  else subCore w x r
 
 /-- `operator-()`. -/
 def neg (x : EI) : EI := { x with sign := !x.sign }
@@ -158,24 +162,21 @@ def shl (w : Nat) (x : EI) (k : Nat) : EI :=
     let bs := if k ≥ w then k / w else 0
     let l2 := List.replicate bs 0 ++ l1
     let s := k - bs * w
-    if k ≥ w ∧ s = 0 then { x with limbs := l2 }          -- early return: the pushed limb stays
+    if k ≥ w ∧ s = 0 then { x with limbs := stripTop l2 }   -- whole limbs only: remove_leading_zeros(), return
     else { x with limbs := stripTop (shlBits w s 0 l2) }
 
 def shrBits (w s : Nat) : List Nat → List Nat
   | [] => []
   | x :: xs => (x / 2 ^ s + (xs.headD 0 % 2 ^ s) * 2 ^ (w - s)) :: shrBits w s xs
 
-/-- the in-place block move of `operator>>=`: limbs `MSU-bs < p < bs` keep their old value. -/
+/-- the block move of `operator>>=`: limbs `bs…MSU` move down by `bs`, the vacated upper `bs` limbs are nulled. -/
 def shrBlocks (l : List Nat) (bs : Nat) : List Nat :=
-  let msu := l.length - 1
-  if msu ≥ bs then
-    (List.range l.length).map (fun p => if p + bs ≤ msu then block l (p + bs) else if p ≥ bs then 0 else block l p)
-  else l
+  if l.length - 1 ≥ bs then l.drop bs ++ List.replicate bs 0 else l
 
 /-- `operator>>=` for `k ≥ 0`. -/
 def shr (w : Nat) (x : EI) (k : Nat) : EI :=
   if k = 0 then x
-  else if k > x.limbs.length * w then {}
+  else if k ≥ x.limbs.length * w then {}
   else
     let bs := if k ≥ w then k / w else 0
     let l2 := if k ≥ w then shrBlocks x.limbs bs else x.limbs
@@ -183,15 +184,24 @@ def shr (w : Nat) (x : EI) (k : Nat) : EI :=
     if k ≥ w ∧ s = 0 then { x with limbs := stripTop l2 }
     else { x with limbs := stripTop (shrBits w s l2) }
 
-/-! ### comparisons (sign-blind, as written) -/
+/-! ### comparisons -/
 
-def eqE (a b : EI) : Bool := a.limbs == b.limbs
+/-- `operator==`: two zeros are equal whatever their flags; otherwise signs and limbs must agree. -/
+def eqE (a b : EI) : Bool := (isZero a && isZero b) || (a.sign == b.sign && a.limbs == b.limbs)
 
-/-- `operator<`: limb counts, then limbs from the top; never looks at the signs. -/
+/-- magnitude order as `operator<` and `compare_magnitude` compute it: limb counts, then limbs from the top. -/
+def ltMag (a b : List Nat) : Bool :=
+  if a.length < b.length then true
+  else if a.length > b.length then false
+  else cmpLE a b == .lt
+
+/-- `operator<`: a non-zero negative value is below everything non-negative; equal signs order the magnitudes
+    (the other way round for two negative values). -/
 def ltE (a b : EI) : Bool :=
-  if a.limbs.length < b.limbs.length then true
-  else if a.limbs.length > b.limbs.length then false
-  else cmpLE a.limbs b.limbs == .lt
+  let ln := a.sign && !isZero a
+  let rn := b.sign && !isZero b
+  if ln != rn then ln
+  else if ln then ltMag b.limbs a.limbs else ltMag a.limbs b.limbs
 
 def cmpMask (a b : EI) : Nat :=
   let eq := eqE a b
@@ -213,17 +223,29 @@ def divLimb (w d : Nat) : List Nat → List Nat × Nat
 /-- `nlz` of a non-zero limb. -/
 def nlz (w x : Nat) : Nat := w - (Nat.log2 x + 1)
 
-/-- `BlockType >> c` as compiled: for `uint32_t` a count of 32 is undefined behaviour; x86 `shr` masks the
-    count to 5 bits (observed with g++ 12.2 -O1), narrower types are promoted to `int`. -/
-def shrW (w x c : Nat) : Nat := if w = 32 then x >>> (c % 32) else x >>> c
-
-def u64 (n : Nat) : UInt64 := n.toUInt64
-
-/-- the q̂ correction loop on `uint64_t` values. There is no `break` when `rhat ≥ BASE`. -/
-def qhatLoop (B v d a2 : UInt64) : Nat → UInt64 → UInt64 → UInt64 × UInt64
+/-- the q̂ correction loop (Knuth D3): decrement while the two-limb test fails, stop once `rhat` no longer fits a limb. -/
+def qhatLoop (B v d a2 : Nat) : Nat → Nat → Nat → Nat × Nat
   | 0, q, r => (q, r)
   | fuel + 1, q, r =>
-    if q ≥ B || q * v > B * r + a2 then qhatLoop B v d a2 fuel (q - 1) (r + d) else (q, r)
+    if q ≥ B || q * v > B * r + a2 then
+      if r + d ≥ B then (q - 1, r + d) else qhatLoop B v d a2 fuel (q - 1) (r + d)
+    else (q, r)
+
+/-- multiply and subtract (Knuth D4) with the signed borrow of the C++ (`int64_t`, arithmetic shift). -/
+def mulSubLoop (w qhat j : Nat) (nb : List Nat) : List Nat → Nat → List Nat → Int → List Nat × Int
+  | [], _, na, borrow => (na, borrow)
+  | bi :: bs, i, na, borrow =>
+    let p := qhat * bi
+    let t : Int := (block na (i + j) : Int) - borrow - ((p % 2 ^ w : Nat) : Int)
+    mulSubLoop w qhat j nb bs (i + 1) (setblock na (i + j) (t % ((2 ^ w : Nat) : Int)).toNat)
+      (((p / 2 ^ w : Nat) : Int) - t / ((2 ^ w : Nat) : Int))
+
+/-- add back (Knuth D6): one limb-wise addition of the divisor. -/
+def addBackLoop (w j : Nat) : List Nat → Nat → List Nat → Nat → List Nat × Nat
+  | [], _, na, carry => (na, carry)
+  | bi :: bs, i, na, carry =>
+    let c := carry + block na (i + j) + bi
+    addBackLoop w j bs (i + 1) (setblock na (i + j) (c % 2 ^ w)) (c / 2 ^ w)
 
 structure KState where
   na : List Nat
@@ -231,37 +253,25 @@ structure KState where
   corr : Nat := 0     -- coverage: number of q̂ decrements
   addback : Nat := 0  -- coverage: number of add-back steps
 
-/-- one iteration `j` of the Knuth-D loop as written. -/
+/-- one iteration `j` of the Knuth-D loop. -/
 def knuthStep (w n : Nat) (nb : List Nat) (st : KState) (j : Nat) : KState :=
-  let B : UInt64 := u64 (2 ^ w)
-  let divisor := u64 (block nb (n - 1))
-  let v2 := u64 (block nb (n - 2))
-  let dividend := u64 (block st.na (j + n)) * B + u64 (block st.na (j + n - 1))
+  let B := 2 ^ w
+  let divisor := block nb (n - 1)
+  let v2 := block nb (n - 2)
+  let dividend := block st.na (j + n) * B + block st.na (j + n - 1)
   let qhat0 := dividend / divisor
   let rhat0 := dividend - qhat0 * divisor
-  let a2 := u64 (block st.na (j + n - 2))
-  -- while (qhat >= BASE) … : closed form of the first phase, then the loop proper
-  let k1 : UInt64 := if qhat0 ≥ B then qhat0 - B + 1 else 0
-  let qr := qhatLoop B v2 divisor a2 ((qhat0 - k1).toNat + 1) (qhat0 - k1) (rhat0 + k1 * divisor)
-  let qhat := qr.1
-  -- multiply and subtract
-  let ms := (List.range n).foldl (fun (s : List Nat × UInt64) i =>
-      let p := qhat * u64 (block nb i)
-      let plo := p % B
-      let ai := u64 (block s.1 (i + j))
-      let d0 : UInt64 := if w = 32 then (ai - plo) % B else ai - plo
-      let diff := d0 - s.2
-      (setblock s.1 (i + j) (diff % B).toNat, (p >>> u64 w) - (diff >>> u64 w))) (st.na, (0 : UInt64))
-  let sb := u64 (block ms.1 (j + n)) - ms.2
-  let na1 := setblock ms.1 (j + n) (sb % B).toNat
-  let q1 := setblock st.q j (qhat % B).toNat
-  let ncorr := st.corr + (qhat0 - qhat).toNat
-  if sb ≥ 0x8000000000000000 then
-    let q2 := setblock q1 j ((block q1 j + 2 ^ w - 1) % 2 ^ w)
-    let ab := (List.range n).foldl (fun (s : List Nat × UInt64) i =>
-        let c := s.2 + u64 (block s.1 (i + j)) + u64 (block nb i)
-        (setblock s.1 (i + j) (c % B).toNat, c >>> 32)) (na1, (0 : UInt64))
-    let na2 := setblock ab.1 (j + n) ((u64 (block ab.1 (j + n)) + ab.2) % B).toNat
+  let a2 := block st.na (j + n - 2)
+  let qhat := (qhatLoop B v2 divisor a2 (qhat0 + 1) qhat0 rhat0).1
+  let ms := mulSubLoop w qhat j nb nb 0 st.na 0
+  let sb : Int := (block ms.1 (j + n) : Int) - ms.2
+  let na1 := setblock ms.1 (j + n) (sb % ((B : Nat) : Int)).toNat
+  let q1 := setblock st.q j (qhat % B)
+  let ncorr := st.corr + (qhat0 - qhat)
+  if sb < 0 then
+    let q2 := setblock q1 j ((block q1 j + B - 1) % B)
+    let ab := addBackLoop w j nb 0 na1 0
+    let na2 := setblock ab.1 (j + n) ((block ab.1 (j + n) + ab.2) % B)
     { na := na2, q := q2, corr := ncorr, addback := st.addback + 1 }
   else { na := na1, q := q1, corr := ncorr, addback := st.addback }
 
@@ -275,6 +285,14 @@ structure DivResult where
   corr : Nat := 0
   addback : Nat := 0
 
+/-- epilogue of reduce(): the quotient (leading zero limbs removed) is negative iff the signs differ and it is not zero. -/
+def signedQ (a b : EI) (l : List Nat) : EI :=
+  { sign := (a.sign != b.sign) && !isZero { sign := false, limbs := l }, limbs := l }
+
+/-- epilogue of reduce(): the remainder (leading zero limbs removed) takes the sign of the dividend unless it is zero. -/
+def signedR (a : EI) (l : List Nat) : EI :=
+  { sign := a.sign && !isZero { sign := false, limbs := l }, limbs := l }
+
 /-- `q.reduce(a, b, r)` with fresh `q`, `r`. -/
 def reduce (w : Nat) (a b : EI) : DivResult :=
   if isZero b then { q := {}, r := {}, path := .zero }
@@ -284,35 +302,25 @@ def reduce (w : Nat) (a b : EI) : DivResult :=
     let b0 := block b.limbs 0
     let qv := a0 / b0
     let rv := a0 % b0
-    { q := { sign := a.sign != b.sign, limbs := if qv = 0 then [] else [qv] },
-      r := { sign := false, limbs := if rv = 0 then [] else [rv] }, path := .native }
-  else if ltE a b then { q := {}, r := a, path := .less }
+    { q := signedQ a b (if qv = 0 then [] else [qv]),
+      r := signedR a (if rv = 0 then [] else [rv]), path := .native }
+  else if cmpMag a.limbs b.limbs == .lt then { q := {}, r := a, path := .less }   -- compare_magnitude(a, b) < 0
   else
     let m := (stripTop a.limbs).length
     let n := (stripTop b.limbs).length
     if n = 1 then
       let p := divLimb w (block b.limbs 0) (a.limbs.take m)
-      { q := { sign := false, limbs := stripTop p.1 }, r := { sign := false, limbs := [p.2 % 2 ^ w] }, path := .single }
+      { q := signedQ a b (stripTop p.1), r := signedR a (stripTop [p.2 % 2 ^ w]), path := .single }
     else
-      let Bn := 2 ^ w
       let shift := nlz w (block b.limbs (n - 1))
-      let na : List Nat :=
-        if m = 0 then [0] else
-        (List.range (m + 1)).map (fun i =>
-          if i = m then shrW w (block a.limbs (m - 1)) (w - shift)
-          else if i = 0 then (block a.limbs 0 <<< shift) % Bn
-          else ((block a.limbs i <<< shift) ||| shrW w (block a.limbs (i - 1)) (w - shift)) % Bn)
-      let nb : List Nat :=
-        (List.range n).map (fun i =>
-          if i = 0 then (block b.limbs 0 <<< shift) % Bn
-          else ((block b.limbs i <<< shift) ||| shrW w (block b.limbs (i - 1)) (w - shift)) % Bn)
+      -- normalisation: both operands shifted left by `shift` bits, the dividend one limb longer
+      let na : List Nat := if m = 0 then [0] else shlBits w shift 0 (a.limbs.take m ++ [0])
+      let nb : List Nat := shlBits w shift 0 (b.limbs.take n)
       let js := if m ≥ n then (List.range (m - n + 1)).reverse else []
       let st := js.foldl (knuthStep w n nb) { na := na, q := [] }
-      let r0 := (List.range (n - 1)).foldl (fun (r : List Nat) i =>
-          let rem := u64 (block st.na i >>> shift) ||| (u64 (block st.na (i + 1)) <<< u64 (32 - shift))
-          setblock r i (rem % u64 Bn).toNat) []
-      let r1 := setblock r0 (n - 1) (block st.na (n - 1) >>> shift)
-      { q := { sign := a.sign != b.sign, limbs := stripTop st.q }, r := { sign := false, limbs := r1 },
+      -- the remainder is the low n limbs, shifted back
+      let r1 := shrBits w shift ((padTo n st.na).take n)
+      { q := signedQ a b (stripTop st.q), r := signedR a (stripTop r1),
         path := .knuth, corr := st.corr, addback := st.addback }
 
 def div (w : Nat) (a b : EI) : EI := (reduce w a b).q
@@ -482,7 +490,8 @@ def add (x r : ED) : ED :=
 def sub (x r : ED) : ED :=
   if x.neg != r.neg then addCore x { r with neg := !r.neg } else subCore x r
 
-def neg (x : ED) : ED := { x with neg := !x.neg }
+/-- `operator-()`: flips the flag of a non-zero value; zero has no sign. -/
+def neg (x : ED) : ED := if isZero x then x else { x with neg := !x.neg }
 
 /-- one partial product row: digit `s` times the big operand, shifted by `pos`. -/
 def mulDigitRow (s : Nat) : List Nat → Nat → List Nat
@@ -504,7 +513,9 @@ def mul (x r : ED) : ED :=
     let prod := if x.d.length < r.d.length then mulRows r.d x.d 0 zero else mulRows x.d r.d 0 zero
     { neg := x.neg != r.neg, d := unpad prod.d }
 
-def shl (x : ED) (k : Nat) : ED := if k = 0 then x else { x with d := List.replicate k 0 ++ x.d }
+/-- `operator<<=`: insert `k` zero digits below a non-zero value; zero stays the single digit 0. -/
+def shl (x : ED) (k : Nat) : ED :=
+  if k = 0 then x else if isZero x then x else { x with d := List.replicate k 0 ++ x.d }
 
 def shr (x : ED) (k : Nat) : ED :=
   if k = 0 then x else if x.d.length ≤ k then zero else { x with d := x.d.drop k }
@@ -561,7 +572,7 @@ def divide (x y : ED) : ED × ED :=
     let st0 : DivSt := { acc := a, sub := shl b shift.toNat, quot := [0] }
     let st := divLoop (shift.toNat + 1) st0
     let q : ED := { neg := x.neg != y.neg, d := unpad st.quot }
-    let r : ED := if lt x zero then { st.acc with neg := !st.acc.neg, d := unpad st.acc.d } else { st.acc with d := unpad st.acc.d }
+    let r : ED := if lt x zero && !isZero st.acc then { st.acc with neg := !st.acc.neg, d := unpad st.acc.d } else { st.acc with d := unpad st.acc.d }
     (q, r)
 
 def div (x y : ED) : ED := (divide x y).1
